@@ -49,7 +49,8 @@ def plan(tier):
 
 
 def gen_refine(rng):
-    case = simcases.gen_case(rng, "fast_nonMarkov_SIS", nmax=8, buggify=False, allow_rho=False, horizon="finite")
+    case = simcases.gen_case(rng, "fast_nonMarkov_SIS", nmax=8, buggify=False, allow_rho=False, horizon="finite",
+                             selfloops=0.3, directed=rng.random() < 0.25)
     case["span"] = rng.choice([2.0, 4.0, 8.0])
     case["hpolicy"] = rng.choice(["fixed", "on_event", "before_event", "after_event", "at_tmin"])
     case["hpick"] = rng.random()
@@ -250,6 +251,10 @@ def run_one(family, rng, idx, tier):
         stats = {"evaluations": 1, "horizon_%s" % case["hpolicy"]: 1, "reference_events": info.get("events", 0)}
         if case["sis_unfiltered"]:
             stats["fault_F2_attempts_after_source_recovery"] = 1
+        if any(e[0] == e[1] for e in case["graph"]["edges"]):
+            stats["graphs_with_self_loops"] = 1
+        if case["graph"]["directed"]:
+            stats["directed_contact_networks"] = 1
         if case["hpolicy"] != "fixed":
             stats["fault_F3_horizon_cut"] = 1
         if info["skip"]:
